@@ -20,6 +20,8 @@ import (
 	"time"
 )
 
+var nativeAssertRe = regexp.MustCompile(`VERIF-REPLAY: REPRODUCED assert "(native: [^"]*)"`)
+
 var verifDir = func() string {
 	if d := os.Getenv("VERIF_DIR"); d != "" {
 		return d
@@ -536,6 +538,7 @@ func finishCheck(ps *PropSpec, tier string, seed int, t0 time.Time, work string,
 	}
 	validated := 0
 	witMismatch := []string{}
+	var nativeViols []*violationRec
 	if !noReplay && (len(viols) > 0 || len(wits) > 0) {
 		runners := map[*loadedGroup]*replayRunner{}
 		raceRunners := map[*loadedGroup]*replayRunner{}
@@ -577,7 +580,7 @@ func finishCheck(ps *PropSpec, tier string, seed int, t0 time.Time, work string,
 			}
 			out := rr.run(v.Harness, path)
 			v.Verdict = judgeReplay(v.V, out)
-			if strings.HasPrefix(v.Harness, "H_C15_") && !strings.HasPrefix(v.Verdict, "REPRODUCED") {
+			if (strings.HasPrefix(v.Harness, "H_C15_") || v.V.Kind == "ownership") && !strings.HasPrefix(v.Verdict, "REPRODUCED") {
 				// C15 harnesses replay as a goroutine workload under the race detector: any failure of that
 				// workload (data race, foreign value, panic) confirms the single-thread obligation that failed
 				if strings.Contains(out, "WARNING: DATA RACE") {
@@ -610,6 +613,18 @@ func finishCheck(ps *PropSpec, tier string, seed int, t0 time.Time, work string,
 				mu.Lock()
 				defer mu.Unlock()
 				if !strings.Contains(out, "VERIF-REPLAY: NOT-REPRODUCED") {
+					// assertions labelled "native: ..." exist only in the native branch of a harness (they observe the
+					// real runtimes / the real scheduler where the solver run sees stubs): their failure on an input the
+					// solver enumerated is a violation shown by the real code, not a translator mismatch
+					if m := nativeAssertRe.FindStringSubmatch(out); m != nil {
+						rp := filepath.Join(replayDir, fmt.Sprintf("%s-w%d.json", wr.task.name, i))
+						rf.Obligation, rf.Kind, rf.Label, rf.Expect = "assert:"+m[1]+"@native", "assert", m[1], "assert:"+m[1]
+						rb, _ := json.MarshalIndent(rf, "", " ")
+						os.WriteFile(rp, rb, 0o644)
+						nativeViols = append(nativeViols, &violationRec{Harness: wr.task.name, Group: wr.task.lg, Replay: rp,
+							V: ViolationJSON{ID: "assert:" + m[1] + "@native", Kind: "assert", Label: m[1], Inputs: wr.w.Inputs}, Verdict: "REPRODUCED assert " + strconv.Quote(m[1])})
+						return
+					}
 					witMismatch = append(witMismatch, fmt.Sprintf("%s: path witness %v does not pass natively: %s", wr.task.name, wr.w.Inputs, lastLines(out, 3)))
 					return
 				}
@@ -626,6 +641,14 @@ func finishCheck(ps *PropSpec, tier string, seed int, t0 time.Time, work string,
 		wg.Wait()
 	}
 	engineErr = append(engineErr, witMismatch...)
+	seenNative := map[string]bool{}
+	for _, nv := range nativeViols {
+		k := nv.Harness + "/" + nv.V.ID
+		if !seenNative[k] {
+			seenNative[k] = true
+			viols = append(viols, nv)
+		}
+	}
 
 	// ---- classify ----
 	known, err := loadKnown()
